@@ -1,8 +1,8 @@
 CONSTANTS
   MaxRows = 3
-  QuerySet = "order"
+  QuerySet = "plain"
   EmitMode = "cases"
-  TableStride = 4
+  TableStride = 1
   Variant = "ok"
 INIT Init
 NEXT Next
